@@ -35,6 +35,15 @@ func (p *Parser) getToken() {
 			p.ErrorRow = p.Row
 		}
 
+		// a string literal that spans several lines moves the row count on.
+		// Counted here, where the token is taken from the lexer once (Read
+		// sees it again after every Unget)
+		if p.token == base.STRING {
+			if stringValue, ok := p.Lexer.Value().(string); ok {
+				p.Row += strings.Count(stringValue, "\n")
+			}
+		}
+
 		return
 	}
 
@@ -106,14 +115,6 @@ func (p *Parser) Read() (*base.T, error) {
 	case base.STRING:
 		stringValue := p.Lexer.Value().(string)
 		t = base.MakeString(stringValue)
-
-		if p.BeforeString != stringValue {
-			// Count newlines in string and increment p.Row accordingly
-			newlineCount := strings.Count(stringValue, "\n")
-			p.Row += newlineCount
-		}
-
-		p.BeforeString = stringValue
 
 	case base.NIL:
 		t = base.MakeNil()
